@@ -112,6 +112,7 @@ inline SanRep parse_report(const std::string& err, size_t pos, bool ub) {
     size_t in = line.find(" in "); if (in == std::string::npos) continue;
     std::string rest = line.substr(in + 4);
     size_t sl = rest.rfind(" /"); std::string fn = sl == std::string::npos ? rest : rest.substr(0, sl);
+    { size_t mp = fn.find(" (/"); if (mp != std::string::npos) fn = fn.substr(0, mp); }   // frames without source: "func (/path/module+0x..) (BuildId: ..)"
     std::string file = sl == std::string::npos ? "" : rest.substr(sl + 1);
     if (first.empty()) first = simplify_func(fn);
     if (file.find("/verif/harness/") != std::string::npos) { if (!r.func.empty()) break; else continue; }
